@@ -118,3 +118,26 @@ Qed.
 Example listing_example :
   same_listing (mkCal [5; 6] [16685; 16686; 16683]) (mkCal [6; 5; 5] [16683; 16685; 16686; 16685]).
 Proof. split; intros v; cbn; intuition. Qed.
+
+Lemma forallb_members {A} (f : A -> bool) l l' : (forall x, In x l <-> In x l') -> forallb f l = forallb f l'.
+Proof. intros M. apply eq_true_iff_eq. rewrite !forallb_forall. split; intros Hf x I; apply Hf, M, I. Qed.
+Lemma existsb_members {A} (f : A -> bool) l l' : (forall x, In x l <-> In x l') -> existsb f l = existsb f l'.
+Proof. intros M. apply eq_true_iff_eq. rewrite !existsb_exists. split; intros (x & I & E); exists x; split; auto; apply M; auto. Qed.
+
+(* a combined calendar sees its member lists only through membership: order and repetition of members are immaterial *)
+Definition same_members (u u' : ucal) : Prop :=
+  (forall c, In c (u_cals u) <-> In c (u_cals u')) /\
+  match u_settle u, u_settle u' with
+  | None, None => True
+  | Some v, Some v' => forall c, In c v <-> In c v'
+  | _, _ => False
+  end.
+
+Lemma ucal_members_free u u' : same_members u u' ->
+  forall d, ucal_is_bus u d = ucal_is_bus u' d /\ ucal_is_settle u d = ucal_is_settle u' d.
+Proof.
+  intros (M & S) d. unfold ucal_is_bus, ucal_is_weekday, ucal_is_holiday, ucal_is_settle.
+  rewrite (forallb_members _ _ _ M), (existsb_members _ _ _ M). split; [reflexivity|].
+  destruct (u_settle u) as [v|], (u_settle u') as [v'|]; try contradiction; [|reflexivity].
+  rewrite (existsb_members _ _ _ S). reflexivity.
+Qed.
